@@ -581,6 +581,39 @@ Proof.
   rewrite (subgraph_orig_same _ body H). reflexivity.
 Qed.
 
+
+(* ------------------------------------------------------------------------------------------------ any tree *)
+(* "exactly once, in order" does not depend on the two repairs: it holds of the unchanged tree as well *)
+Theorem callback_once_tree f13 f19 o oc tr :
+  construct_gen f13 f19 o = Some (oc, tr) -> (forall e, oc <> OErr e) -> map fst tr = map cb_id (op_callbacks o).
+Proof.
+  intros Hc Hne. destruct o; cbn in Hc; inversion Hc as [H]; clear Hc.
+  - unfold if_gen in H. destruct (subgraph_gen f19 [] else_branch) as [r1 t1] eqn:E1.
+    destruct r1 as [g1|e1]; [|inversion H; subst; exfalso; eapply Hne; reflexivity].
+    destruct (subgraph_gen f19 [] then_branch) as [r2 t2] eqn:E2.
+    destruct r2 as [g2|e2]; [|inversion H; subst; exfalso; eapply Hne; reflexivity].
+    inversion H; subst. destruct (subgraph_ok _ _ _ _ _ E1) as [a1 [_ [-> _]]].
+    destruct (subgraph_ok _ _ _ _ _ E2) as [a2 [_ [-> _]]]. reflexivity.
+  - destruct oc as [kk gs n|e]; [|exfalso; eapply Hne; reflexivity].
+    unfold loop_gen in H. destruct (ctor1_node _ _ _ _ _ _ _ _ _ H) as [tys [g [_ [_ [_ [_ [_ ->]]]]]]]. reflexivity.
+  - destruct oc as [kk gs n|e]; [|exfalso; eapply Hne; reflexivity].
+    destruct (ctor1_node _ _ _ _ _ _ _ _ _ H) as [tys [g [_ [_ [_ [_ [_ ->]]]]]]]. reflexivity.
+  - destruct oc as [kk gs n|e]; [|exfalso; eapply Hne; reflexivity].
+    destruct (ctor1_node _ _ _ _ _ _ _ _ _ H) as [tys [g [_ [_ [_ [_ [_ ->]]]]]]]. reflexivity.
+Qed.
+
+(* subgraph() with something that is not a Type among the types: TypeError before anything is called *)
+Theorem subgraph_bad_types mat types f : all_types types = None -> subgraph_gen mat types f = (Err EType, []).
+Proof. intros H. unfold subgraph_gen. rewrite H. reflexivity. Qed.
+Lemma all_types_none types : In None types -> all_types types = None.
+Proof.
+  induction types as [|t types IH]; intros H; [destruct H|]. destruct t as [t|]; [|reflexivity].
+  destruct H as [H|H]; [discriminate|]. cbn. rewrite (IH H). reflexivity.
+Qed.
+
+Theorem subgraph_bad_types_in mat types f : In None types -> subgraph_gen mat types f = (Err EType, []).
+Proof. intros H. apply subgraph_bad_types, all_types_none, H. Qed.
+
 (* ------------------------------------------------------------------------------------------------ non-vacuity *)
 Example scan_spec_example :   (* two states, two scanned values, one scanned along axis -1, one of unknown dims *)
   spec_scan [f32 [3%N]; Tensor 7%N None; Tensor 1%N (Some [DInt 5%N; DSym 0%N; DUnk]); f32 [4%N; 5%N]] 2 (Some [0; -1])
